@@ -1,5 +1,6 @@
 """Per-property plans: which engine runs, under which detector, with what bounds."""
 from .driver import Run
+from . import custom
 
 NATIVE = "Tok,ZTok,Tok24"
 
@@ -39,6 +40,7 @@ def c05(tier, seed):
 
 
 ENGINES = {
+    "constprobe": ({"C18"}, "generated const items: rustc's const evaluator as UB monitor + run-time agreement (separate crate /verif/constprobe)"),
     "serdeq": ({"C17"}, "serde: recording serializer, format references, scripted deserializer grid"),
     "arrmac": ({"C20"}, "generated arr!/box_arr! invocations with logging element expressions"),
     "zc": ({"C19"}, "zeroize visit counting and constant-default reach, run time + const items"),
@@ -285,6 +287,28 @@ def c17(tier, seed):
 
 
 SPECS = {
+    "C18": dict(
+        engine="constprobe",
+        custom=custom.c18_custom,
+        runs=lambda tier, seed: [],
+        technique="rustc's const evaluator (the Miri engine) as the UB monitor over ~2500 (quick) / ~5300 (thorough) generated const/static items, plus native re-evaluation of the same const fns and comparison of the results",
+        level="other",
+        level_text=("A generator instantiates every const fn of the crate (slice/array reinterpretation both ways, the four chunk functions over every "
+                    "L in 0..=3N+2 on exactly-sized backing arrays, from_chunks/into_chunks, uninit/assume_init, len, arr!, const_default/DEFAULT, "
+                    "the internals builders' const constructors) for N in {0,1,2,3,7,8,16,17} (+32, 33, 100, 256, 1024 in thorough) and element "
+                    "types u8, u32, (u8,u16), () in const items. Compiling the crate makes rustc's const evaluator execute each call: out-of-bounds "
+                    "or dangling pointers, uninitialised reads and invalid values are hard errors (E0080), reference-valued items are validated "
+                    "for extent, and in-item assertions compare with plain indexing on the backing storage. The binary then evaluates the same "
+                    "const fns natively through function pointers and compares with the compiler's values."),
+        level_note="Trusted: rustc's const evaluator and its validity checks; the generator (gen/constprobe_gen.py). Compile errors that are not const-evaluation errors mean the API moved: inconclusive, not a violation.",
+        min_cases=2000,
+        must_count=["const_items_evaluated_by_rustc", "reference_valued_items"],
+        exhaustive={"quick": True, "thorough": True},
+        rule="one case = one generated const/static item (const fn family, element type, N, L); all items of the tier are evaluated by rustc and again natively",
+        explanation=("deciding step: the compiler's const evaluator (an undefined-behaviour interpreter) executing generated const items built against "
+                     "the working tree, then run-time agreement; 'evaluations' counts const items, each evaluated twice (rustc + native)"),
+        assumptions=["N and L from the generator's lists", "element types without drop glue (const fns cannot drop generic values)"],
+    ),
     "C17": dict(
         engine="serdeq",
         technique="recording Serializer (call-sequence monitor) + encodings vs tuple/Vec/concatenation references in JSON, bincode and serde_json::Value + scripted Deserializer/SeqAccess grid with ledger-tracked elements; Miri/memcheck",
@@ -308,6 +332,8 @@ SPECS = {
         assumptions=["N in 0..=8 for the scripted grid"],
     ),
     "C20": dict(
+        also_custom=custom.c18_custom,
+        also_families=("arr!",),
         engine="arrmac",
         technique="generated macro invocations with logging element expressions: evaluation-order recorder + type-level length reader + contents vs the values returned and vs the native literal; repeat forms count evaluations of x; const items evaluated by the compiler",
         level="exploration",
@@ -326,6 +352,8 @@ SPECS = {
         assumptions=["element counts 0..=64, 100, 128, 255, 256; repeat lengths from the lattice"],
     ),
     "C19": dict(
+        also_custom=custom.c18_custom,
+        also_families=("const_default",),
         engine="zc",
         technique="per-address visit counter inside the element's Zeroize impl + value read-back; constant default compared element-wise at run time AND for const items evaluated by the compiler; Miri for structurally built arrays",
         level="exploration",
@@ -396,6 +424,8 @@ SPECS = {
         assumptions=["N from the lattice"],
     ),
     "C10": dict(
+        also_custom=custom.c18_custom,
+        also_families=("chunks_from_slice", "from_chunks", "ref.chunks_from_slice"),
         engine="chunks",
         technique="address/extent monitor on both parts for every slice length L in 0..=4N+3 + identity read-back + write-through with guard elements; Miri for out-of-bounds views; const-evaluator half via generated const items",
         level="exploration",
